@@ -684,6 +684,9 @@ def hEdsReconcile (inp out : Json) : Except String Findings := do
                   SMap.get? c.annotations K.templateHashAnnot == some d.templateHash &&
                   SMap.get? c.labels K.edsNameLabel == some d.name && c.ns == d.ns && c.ownerEds == d.name)
     | none => fs
+  -- C13 "a replica set's template, its recorded hash ... always equal the template it was created from": the
+  -- harness re-hashes the template the created replica set STORES and compares it with its templateGeneration
+  let fs := spec fs "C13.created-template-hashes-to-its-generation" (!o.foreign.any (·.startsWith "created ERS template"))
   -- C13/C07: clean-up never deletes the active or the up-to-date replica set, only all-zero ones of
   -- this EDS, and a failed canary only after the retention
   let newActive := match o.statusUpdate with | some st => st.activeReplicaSet | none => d.status.activeReplicaSet
@@ -1007,6 +1010,15 @@ def hErsReconcile (inp out : Json) : Except String Findings := do
       let ordered := fun (x : ERSStatus) => decide (0 ≤ x.available && x.available ≤ x.ready && x.ready ≤ x.current && x.current ≤ x.desired)
       spec fs "C14.ers-order" (s.status == "unknown" || s.status == "" || !ordered rs.status || ordered s)
     | none => fs
+  -- C14 "desired equals the number of eligible nodes": in the active role the written `desired` is the number of
+  -- nodes the replica set targets (eligible, outside the canary list) — stuck or terminating pods included —
+  -- whenever the documented status function (the model: countAll counts every entry) says so
+  let fs := match o.statusUpdate, m.statusUpdate with
+    | some s, some ms =>
+      if role == "active" && !faulted && decide (ms.desired == (m.entries.length : Int)) then
+        spec fs "C14.ers-desired-is-targeted" (decide (s.desired == (m.entries.length : Int)))
+      else fs
+    | _, _ => fs
   -- C11/C17: pod operations precede the status write
   let fs := spec fs "C11.status-last" (match o.order.findIdx? (·.startsWith "status:ERS") with
       | some i => i + 1 == o.order.length
